@@ -19,7 +19,14 @@ import (
 
 type Rand struct{ s uint64 }
 
-func NewRand(seed int64) *Rand { return &Rand{s: uint64(seed)*0x9E3779B97F4A7C15 + 0x1234567} }
+// NewRand hashes the seed through one splitmix64 finaliser so that
+// consecutive seeds give unrelated streams.
+func NewRand(seed int64) *Rand {
+	z := uint64(seed)*0xD1342543DE82EF95 + 0x632BE59BD9B4E019
+	z = (z ^ (z >> 30)) * 0xBF58476D1CE4E5B9
+	z = (z ^ (z >> 27)) * 0x94D049BB133111EB
+	return &Rand{s: z ^ (z >> 31)}
+}
 
 func (r *Rand) U64() uint64 {
 	r.s += 0x9E3779B97F4A7C15
